@@ -73,6 +73,21 @@ SPECS = [
         inputs=[("n_episodes", "Z"), ("total_max", "Z")],
         subst={"self.n_episodes": "n_episodes", "self._total_max_episodes": "total_max"},
     ),
+    # StopTrainingOnRewardThreshold
+    dict(
+        name="rthresh_continue", qual="StopTrainingOnRewardThreshold._on_step", start=r"^continue_training = ", end=None, kind="expr", ret="bool",
+        inputs=[("best", "Z"), ("threshold", "Z")],
+        subst={"self.parent.best_mean_reward": "best", "self.reward_threshold": "threshold"},
+    ),
+    # StopTrainingOnNoModelImprovement: the whole decision block
+    dict(
+        name="noimp_block", qual="StopTrainingOnNoModelImprovement._on_step", start=r"^continue_training = True", end=r"^self\.last_best_mean_reward = ",
+        inputs=[("n_calls", "Z"), ("min_evals", "Z"), ("best", "Z"), ("last_best", "Z"), ("no_improvement_evals", "Z"), ("max_no", "Z")],
+        subst={"self.n_calls": "n_calls", "self.min_evals": "min_evals", "self.parent.best_mean_reward": "best",
+               "self.last_best_mean_reward": "last_best", "self.no_improvement_evals": "no_improvement_evals",
+               "self.max_no_improvement_evals": "max_no"},
+        outputs=[("continue_training", "bool"), ("no_improvement_evals", "Z"), ("last_best", "Z")],
+    ),
     # emission points: on-policy loops
     dict(
         name="onpol_rollout_guard", file=_ON, qual="OnPolicyAlgorithm.collect_rollouts", start=r"^while .*n_rollout_steps", end=None, kind="test",
